@@ -25,6 +25,10 @@ type JSON struct {
 	Noise    bool
 	Template bool
 	Stats    map[string]int
+	// Sparse (optional, for very large bodies): with Sparse > 1 only every
+	// Sparse-th layout decision is drawn, all others take the plain layout.
+	Sparse int
+	sites  int
 }
 
 func (j *JSON) bump(k string) {
@@ -36,6 +40,12 @@ func (j *JSON) bump(k string) {
 func (j *JSON) pick(label string, k int) int {
 	if !j.Noise || k <= 1 {
 		return 0
+	}
+	if j.Sparse > 1 {
+		j.sites++
+		if j.sites%j.Sparse != 0 {
+			return 0
+		}
 	}
 	return rapid.IntRange(0, k-1).Draw(j.T, label)
 }
